@@ -86,6 +86,9 @@ def execute(scn):
     eps = EPS[spec["dtype"]]
     model = Model(spec)
     stats, events, viols, sets = {}, [], [], {}
+    from ..world import require_valid
+
+    require_valid(model, call)
     world = World(spec, scn["sched"])
     twin = World(spec, scn["twin_sched"], twin_offset=1 << 20)
     apply_pre_grads(world, scn.get("pre_grads", {}))
@@ -102,7 +105,7 @@ def execute(scn):
     stats["sweeps"] = count_sweeps(world.log.events)
     events.append(["world", out["ok"], out["exc"]])
     if not out["ok"]:
-        return {"violations": [{"clause": "valid_call_raised", "step": "world", "details": out, "key": {"exc": out["exc"]}}], "events": events, "stats": stats, "sig": None, "nontrivial": False}
+        return {"violations": [{"clause": "valid_call_raised", "step": "world", "details": out, "key": {"exc": out["exc"], "msg": (out.get("msg") or "")[:40]}}], "events": events, "stats": stats, "sig": None, "nontrivial": False}
 
     tolmap = {}
     requested = []
